@@ -54,6 +54,19 @@ Theorem C15_stopped_means_empty : forall m evs s o, run (init m) evs = Some (s, 
 Proof. exact after_stop. Qed.
 Print Assumptions C15_stopped_means_empty.
 
+(* no session is leaked: every session ever spawned is, at any later time and under every
+   schedule, still running, or has been closed by the server, or has ended on its own; hence once
+   the server has stopped every spawned session has been closed or had ended by itself *)
+Theorem C15_no_session_leaked : forall m evs s o, run (init m) evs = Some (s, o) ->
+  forall id, In (Spawned id) o -> alive s id = true \/ In (Closed id) o \/ In (PeerGone id) evs.
+Proof. exact no_session_leaked. Qed.
+Print Assumptions C15_no_session_leaked.
+
+Theorem C15_all_closed_when_stopped : forall m evs s o, run (init m) evs = Some (s, o) -> running s = false ->
+  forall id, In (Spawned id) o -> In (Closed id) o \/ In (PeerGone id) evs.
+Proof. exact all_closed_when_stopped. Qed.
+Print Assumptions C15_all_closed_when_stopped.
+
 (* isolation, as far as this model carries it: in any reachable state the only events that end a
    running session b are its own end, the notification of its end, a stop of the server, or an
    Accept arriving at the limit while b is the oldest entry. Events of other sessions (their end,
